@@ -10,6 +10,7 @@ import sys
 
 sys.path.insert(0, str(pathlib.Path(__file__).parent))
 VERIF = pathlib.Path(__file__).parent
+SEEDED = pathlib.Path(os.environ.get("SEEDED_DIR", str(VERIF / "seeded")))
 ALL = [f"C{i:02d}" for i in range(1, 21)]
 
 
@@ -19,7 +20,7 @@ def one(args):
     from sa.dev import overlay_from_patch
     from sa.errors import AnalysisError
     try:
-        ov = overlay_from_patch(str(VERIF / "seeded" / sid / "patch.diff"))
+        ov = overlay_from_patch(str(SEEDED / sid / "patch.diff"))
     except SystemExit as e:
         return sid, prop, "noapply", [str(e)[:80]]
     try:
@@ -39,8 +40,8 @@ def one(args):
 
 
 def main():
-    sids = sorted(os.listdir(VERIF / "seeded"))
-    sids = [s for s in sids if (VERIF / "seeded" / s / "patch.diff").exists()]
+    sids = sorted(os.listdir(SEEDED))
+    sids = [s for s in sids if (SEEDED / s / "patch.diff").exists()]
     only = sys.argv[1:]
     if only:
         sids = [s for s in sids if any(s.startswith(o) for o in only)]
@@ -51,7 +52,7 @@ def main():
     table: dict = {}
     for sid, prop, verdict, keys in results:
         table.setdefault(sid, {})[prop] = {"verdict": verdict, "keys": keys}
-    (VERIF / "seeded" / "MATRIX.json").write_text(json.dumps(table, indent=1))
+    (SEEDED / "MATRIX.json").write_text(json.dumps(table, indent=1))
     lines = ["| seeded change | breaks | caught by own check | caught by (all) | undecided / crash |", "|---|---|---|---|---|"]
     missed = []
     for sid in sids:
@@ -65,7 +66,7 @@ def main():
         lines.append(f"| {sid} | {own} | {own_v} | {', '.join(fires) or '**none**'} | {', '.join(und)} |")
     lines.append("")
     lines.append(f"missed by every check: {missed}")
-    (VERIF / "seeded" / "MATRIX.md").write_text("\n".join(lines) + "\n")
+    (SEEDED / "MATRIX.md").write_text("\n".join(lines) + "\n")
     print("\n".join(lines))
 
 
